@@ -39,6 +39,8 @@ Fresh(meta, id, expect) ==
    selecting |-> {}, spawning |-> {},
    spawnAt |-> {},
    pendingA |-> {}, envGot |-> [p \in Pids |-> {}],
+   reportedDone |-> {},                    \* processes whose completion has been reported to the environment
+   toDead |-> {},                          \* resources delivered to a process after that report
    own |-> <<>>,                           \* C14: resource -> owner, as the property defines it
    opened |-> {}, explicit |-> {}, autoClosed |-> <<>>,
    heap |-> [w \in 0..7 |-> None],          \* last heap snapshot per worker
@@ -287,7 +289,10 @@ Ownership(o, r) ==
       sp == SelectSeq(r.cmds, LAMBDA c : c.c.t = "SpawnProcess")
       o1 == CASE e.t = "SpawnAction" /\ sp # <<>> ->
                    [o EXCEPT !.own = OwnTransfer(@, ResIn(e.arg) \cup ResInAll(e.caps), sp[1].c.id)]
-              [] e.t = "DeliverAction" -> [o EXCEPT !.own = OwnTransfer(@, ResIn(e.m), e.to)]
+              [] e.t = "DeliverAction" -> [o EXCEPT !.own = OwnTransfer(@, ResIn(e.m), e.to),
+                                                     \* handles that reach a process whose completion the environment
+                                                     \* already knows (its clean-up has run): see toDead below
+                                                     !.toDead = IF e.to \in o.reportedDone THEN @ \cup ResIn(e.m) ELSE @]
               [] e.t = "EffectRequest" /\ e.res # <<>> /\ AHas(o.own, e.res[1]) /\ AGet(o.own, e.res[1]) # e.p
                    /\ ~Gone(o, e.res[1]) ->
                    Chk(o, r.backend = <<>> /\ \E i \in 1..Len(r.cmds) :
@@ -334,7 +339,8 @@ EnvRecord(oo, r) ==
                             "C05", "AwaitResultNotDropped",
                             <<"awaiter", e.a, "received", got, "forwarded", up[1].c.rs>>)
          IN [o1 EXCEPT !.pendingA = pend,
-                       !.envGot[e.a] = IF e.a \in pend THEN got ELSE {}]
+                       !.envGot[e.a] = IF e.a \in pend THEN got ELSE {},
+                       !.reportedDone = @ \cup SomeKeys(e.rs)]
     [] OTHER -> o0
 
 (* ---------------- end of a run ---------------- *)
@@ -422,8 +428,21 @@ AtQuiescence(o, r) ==
             ELSE o4
       leaked == {x \in o.opened : x \notin o.explicit /\ AHas(o.own, x) /\ AGet(o.own, x) \in Pids /\
                                    DoneP(o, AGet(o.own, x)) /\ Count(o.autoClosed, x) # 1}
-      o5b == Chk(o5, leaked = {}, "C14", "ClosedExactlyOnceAtExit",
-                 <<"resources whose owner has terminated but that were not closed exactly once", leaked, o.own, o.autoClosed>>)
+      \* the pinned finding (known_findings.json, res_owner_unawaited): the environment closes a terminated
+      \* process's resources only when its completion is REPORTED to it, which happens only for processes some
+      \* awaiter asked about; a leak whose owner's completion never reached the environment is that finding, any
+      \* other leak is not
+      neverReported == {x \in leaked : AGet(o.own, x) \notin o.reportedDone /\ Count(o.autoClosed, x) = 0}
+      o5a == Chk(o5, neverReported = {}, "C14", "ClosedAtExitNeverReported",
+                 <<"resources never closed: the owner's completion was never reported to the environment", neverReported, o.own>>)
+      \* second pinned finding (res_delivered_to_finished): a handle delivered to a process AFTER the environment
+      \* cleaned up behind it becomes the property of a dead process and is never closed
+      lateOwned == {x \in leaked \ neverReported : x \in o.toDead /\ Count(o.autoClosed, x) = 0}
+      o5a2 == Chk(o5a, lateOwned = {}, "C14", "ClosedAtExitDeliveredToFinished",
+                  <<"resources never closed: delivered to a process whose clean-up had already run", lateOwned, o.own>>)
+      o5b == Chk(o5a2, (leaked \ neverReported) \ lateOwned = {}, "C14", "ClosedExactlyOnceAtExit",
+                 <<"resources whose owner has terminated but that were not closed exactly once",
+                   (leaked \ neverReported) \ lateOwned, o.own, o.autoClosed>>)
       o5c == Chk(o5b, \A x \in o.opened : Count(o.autoClosed, x) <= 1, "C14", "ClosedExactlyOnceAtExit", o.autoClosed)
       canon == CanonResults(o)
       o6 == IF ~o.meta.confluent THEN o5c
